@@ -495,6 +495,13 @@ impl Qcow2Header {
         let end = start + ((rc_blk.1 as usize) << cluster_bits);
         let mut ref_b = RefBlock::new(refcount_order, end - start, Some(rc_blk.0));
 
+        // this formatter sets up single refcount block only, which has to
+        // cover all meta clusters
+        let meta_clusters = (1 + rc_table.1 + rc_blk.1 + l1_table.1) as usize;
+        if meta_clusters > ref_b.entries() {
+            return Err("too many meta clusters for single refcount block".into());
+        }
+
         //header
         ref_b.increment(0)?;
         assert!(ref_b.get(0).into_plain() == 1);
